@@ -73,8 +73,38 @@ let show_t f = function
 let show_chars (l : n list) =
   if l = [] then "-" else String.concat "," (List.map (fun c -> Printf.sprintf "%x" (int_of_n c)) l)
 
+let is_abs k = (k = "A")
+let show_p f = function
+  | Ok a -> f a | Err e -> wire_word e | Panic _ -> "Panic" | OutOfFuel -> "OutOfFuel"
+let nat_arg s = nat_of_int (int_of_string s)
+let hi_arg s =
+  if s = "u" then EUnb
+  else let n = nat_arg (String.sub s 1 (String.length s - 1)) in
+       if s.[0] = 'i' then EIncl n else EExcl n
+let rel_labels b = parse_labels b
+let abs_labels b = parse_labels b   (* parse_labels drops the final root label *)
+
 let handle = function
   | "seq" :: cap :: rest -> handle_seq cap rest
+  | ["ils"; k; h; i] -> show_p (fun b -> if b then "true" else "false") (is_label_start (is_abs k) (bytes_of_hex h) (nat_arg i))
+  | ["split"; k; h; i] -> show_p (fun (l, r) -> "Ok:" ^ hex_of_bytes l ^ ":" ^ hex_of_bytes r) (n_split (is_abs k) (bytes_of_hex h) (nat_arg i))
+  | ["trunc"; k; h; i] -> show_p (fun l -> "Ok:" ^ hex_of_bytes l) (n_truncate (is_abs k) (bytes_of_hex h) (nat_arg i))
+  | ["range"; k; h; lo; hi] ->
+      show_p (fun l -> "Ok:" ^ hex_of_bytes l)
+        (n_range (is_abs k) (bytes_of_hex h) (if lo = "-" then None else Some (nat_arg lo)) (hi_arg hi))
+  | ["from"; h; i] -> show_p (fun l -> "Ok:" ^ hex_of_bytes l) (n_range_from (bytes_of_hex h) (nat_arg i))
+  | ["parent"; k; h] -> show_p (function None -> "None" | Some p -> "Some:" ^ hex_of_bytes p) (n_parent (is_abs k) (bytes_of_hex h))
+  | ["strip"; "A"; h; b] -> show_p (function None -> "None" | Some p -> "Some:" ^ hex_of_bytes p) (abs_strip_suffix (abs_labels (bytes_of_hex h)) (abs_labels (bytes_of_hex b)))
+  | ["strip"; "R"; h; b] -> show_p (function None -> "None" | Some p -> "Some:" ^ hex_of_bytes p) (rel_strip_suffix (rel_labels (bytes_of_hex h)) (rel_labels (bytes_of_hex b)))
+  | ["pn"; h; pos] ->
+      let m = bytes_of_hex h in
+      (match parse_ref m (n_of_int (int_of_string pos)) (mlen m) with
+       | Ok p -> (match parsed_to_name m p with Ok b -> "Ok:" ^ hex_of_bytes b | _ -> "Bad")
+       | Err _ -> "Err" | Panic _ -> "Panic" | OutOfFuel -> "OutOfFuel")
+  | ["unc"; h] -> show_p (fun b -> if b then "A" else "R") (uncertain_check (bytes_of_hex h))
+  | ["chainu"; k; l; r] -> show_w (chain_new_uncertain (k = "R") (nat_arg l) (nat_arg r))
+  | ["intorel"; h] -> show_p (fun l -> "Ok:" ^ hex_of_bytes l) (n_into_relative (bytes_of_hex h))
+  | ["intoabs"; h] -> show_p (fun l -> "Ok:" ^ hex_of_bytes l) (n_into_absolute None (bytes_of_hex h))
   | ["txt"; cs] ->
       let cs = chars_of cs in
       "abs=" ^ show_t hex_of_bytes (name_from_chars None cs)
